@@ -1284,7 +1284,27 @@ func (up4 *UP4) resetCounter(pdr pdr) error {
 
 // modifyUP4ForwardingConfiguration builds P4Runtime table entries and
 // inserts/modifies/removes table entries from UP4 device, according to methodType.
-func (up4 *UP4) modifyUP4ForwardingConfiguration(pdrs []pdr, allFARs []far, qers []qer, methodType p4.Update_Type) error {
+// sharesSessionsEntry tells whether one of the given PDRs matches the same sessions table entry as p:
+// uplink PDRs with the same N3 address and TEID, downlink PDRs of the same UE session.
+func sharesSessionsEntry(p pdr, others []pdr) bool {
+	for _, o := range others {
+		if o.srcIface != p.srcIface {
+			continue
+		}
+
+		if p.IsUplink() && o.tunnelIP4Dst == p.tunnelIP4Dst && o.tunnelTEID == p.tunnelTEID {
+			return true
+		}
+
+		if p.IsDownlink() && o.fseID == p.fseID {
+			return true
+		}
+	}
+
+	return false
+}
+
+func (up4 *UP4) modifyUP4ForwardingConfiguration(pdrs []pdr, allFARs []far, qers []qer, methodType p4.Update_Type, remaining ...pdr) error {
 	var (
 		appID  uint8
 		entry  *p4.TableEntry
@@ -1336,7 +1356,10 @@ func (up4 *UP4) modifyUP4ForwardingConfiguration(pdrs []pdr, allFARs []far, qers
 			return ErrOperationFailedWithReason("build P4rt table entry for Sessions table", err.Error())
 		}
 
-		entriesToApply = append(entriesToApply, sessionsEntry)
+		// PDRs with the same key share the sessions entry: it stays as long as one of them remains
+		if methodType != p4.Update_DELETE || !sharesSessionsEntry(pdr, remaining) {
+			entriesToApply = append(entriesToApply, sessionsEntry)
+		}
 
 		if pdr.IsUplink() {
 			ueAddr, exists = up4.fseidToUEAddr[pdr.fseID]
@@ -1511,13 +1534,13 @@ func (up4 *UP4) sendUpdate(all PacketForwardingRules, updated PacketForwardingRu
 	return nil
 }
 
-func (up4 *UP4) sendDelete(deleted PacketForwardingRules) error {
+func (up4 *UP4) sendDelete(deleted PacketForwardingRules, remaining PacketForwardingRules) error {
 	for i := range deleted.pdrs {
 		up4.releaseCounterID(preQosCounterID,
 			uint64(deleted.pdrs[i].ctrID))
 	}
 
-	if err := up4.modifyUP4ForwardingConfiguration(deleted.pdrs, deleted.fars, deleted.qers, p4.Update_DELETE); err != nil {
+	if err := up4.modifyUP4ForwardingConfiguration(deleted.pdrs, deleted.fars, deleted.qers, p4.Update_DELETE, remaining.pdrs...); err != nil {
 		return err
 	}
 
@@ -1528,6 +1551,11 @@ func (up4 *UP4) sendDelete(deleted PacketForwardingRules) error {
 	}
 
 	for _, p := range deleted.pdrs {
+		// uplink PDRs of the session look the UE address up as long as a downlink PDR remains
+		if sharesSessionsEntry(p, remaining.pdrs) {
+			continue
+		}
+
 		up4.removeUeAddrAndFSEIDMappings(p)
 	}
 
@@ -1550,7 +1578,7 @@ func (up4 *UP4) SendMsgToUPF(method upfMsgType, all PacketForwardingRules, updat
 	case upfMsgTypeMod:
 		err = up4.sendUpdate(all, updated)
 	case upfMsgTypeDel:
-		err = up4.sendDelete(all)
+		err = up4.sendDelete(all, updated)
 	default:
 		// unknown upfMsgType
 		return ie.CauseRequestRejected
